@@ -57,8 +57,9 @@ Section Announce.
 
   (* the Peers channel: what the consumer got is a get_peers response of this traversal with the
      responder's address and id; no response is delivered twice; a response not yet delivered is on its
-     way (its getPeers is blocked in the send) -- or, only with the D10 repair and only while stopping,
-     was given up; once the traversal is Stopped every response has been delivered *)
+     way (its getPeers is blocked in the send) -- or, only with the D10 repair and only once the announce
+     has been CLOSED, was given up (StopTraversing alone never drops a response); once the traversal is
+     Stopped every response has been delivered, unless the announce was closed *)
   Theorem C16_delivery s :
     reachable s -> is_announce c = true ->
     (forall q a i p, In (q, a, i, p) (l_delivered s) ->
@@ -67,9 +68,9 @@ Section Announce.
     (forall q a r, In (q, a, r) (l_log s) -> gr_has_r r = true ->
        (exists x, In x (l_inflight s) /\ tq_id x = q /\ tq_phase x = PDeliver) \/
        In (q, a, gr_id r, gr_payload r) (l_delivered s) \/ In q (l_abandoned s)) /\
-    (lc_abandon_ctx c = false -> l_abandoned s = []) /\
+    (l_abandoned s <> [] -> lc_abandon_closed c = true /\ l_aclosed s = true) /\
     (l_stopped s = true -> forall q a r, In (q, a, r) (l_log s) -> gr_has_r r = true ->
-       In (q, a, gr_id r, gr_payload r) (l_delivered s) \/ In q (l_abandoned s)).
+       In (q, a, gr_id r, gr_payload r) (l_delivered s) \/ (In q (l_abandoned s) /\ l_aclosed s = true)).
   Proof. exact (announce_delivery sha1 ed_verify node_ok push c s). Qed.
 
   (* closing: never a send on the closed channel (no panic, and no delivery is even enabled once closed);
@@ -84,22 +85,27 @@ Section Announce.
     (l_handle s = true -> owner_done s = true -> l_peers_closed s = true).
   Proof. exact (announce_close sha1 ed_verify node_ok push c s). Qed.
 
-  (* "always finishes": while the consumer keeps reading (or, with the D10 repair, once the announce is
-     stopping) some finite sequence of internal events closes the channel and ends every process -- from
-     EVERY reachable state, hence after Close / StopTraversing at any point; and (C14_lookup_measure) no run
-     is infinite and (C14_lookup_progress) none gets stuck before *)
+  (* "always finishes": while the consumer keeps reading -- after StopTraversing too -- and, with the D10
+     repair, after Close() whatever the consumer does: some finite sequence of internal events closes the
+     channel and ends every process, from EVERY reachable state; and (C14_lookup_measure) no run is
+     infinite and (C14_lookup_progress) none gets stuck before *)
   Theorem C16_finishes s :
     reachable s -> is_announce c = true -> l_handle s = true ->
-    (l_reads s = true \/ (lc_abandon_ctx c = true /\ l_stopping s = true)) ->
+    (l_reads s = true \/ (lc_abandon_closed c = true /\ l_aclosed s = true)) ->
     exists ls, forallb internal ls = true /\ path_ok s ls = true /\ length ls <= lmu s /\
                l_peers_closed (exec s ls) = true /\ all_done (exec s ls) = true.
   Proof. exact (announce_finishes sha1 ed_verify node_ok push push_incl push_len c s). Qed.
 
-  (* FINDING D10 (announce.go as found, lc_abandon_ctx = false): once the consumer has stopped reading while
-     a response is waiting to be delivered, NO schedule -- Close() included -- ever closes the channel or
-     lets the announce finish: the delivery waits for Stopped(), and Stopped() waits for that delivery *)
+  (* A consumer that has stopped reading while a response is waiting to be delivered:
+     - announce.go as found (lc_abandon_closed = false), FINDING D10: NO schedule -- Close() included -- ever
+       closes the channel or lets the announce finish: the delivery waits for Stopped(), and Stopped()
+       waits for that delivery;
+     - repaired: the same holds for every schedule WITHOUT Close().  That is the contract, not a defect:
+       StopTraversing alone keeps the obligation to deliver and the consumer's duty to keep reading;
+       Close() releases both (C16_finishes). *)
   Theorem C16_close_nonreading_blocks ls s :
     reachable s -> blocked_state c s ->
+    (lc_abandon_closed c = false \/ forallb (fun l => negb (is_close l)) ls = true) ->
     l_peers_closed (exec s ls) = false /\ owner_done (exec s ls) = false /\ blocked_state c (exec s ls).
   Proof. exact (blocked_forever sha1 ed_verify node_ok push c ls s). Qed.
 End Announce.
@@ -142,10 +148,9 @@ Example C16_nonvacuous :
 Proof. vm_compute. repeat split. Qed.
 
 (* D10 witness: consumer stops, a response is waiting, Close(), the run loop exits, the announce goroutine calls Stop
-   and waits for Stopped: a blocked state in which
-   no internal event at all is enabled (C16_close_nonreading_blocks
-   then says: for ever).  With the repair (ctx.Done() instead of Stopped()) the same schedule goes on:
-   the delivery is given up and the channel gets closed. *)
+   and waits for Stopped: on the tree as found a blocked state in which no internal event at all is enabled
+   (C16_close_nonreading_blocks then says: for ever).  With the repair (a.closed.Done() instead of Stopped())
+   the same schedule goes on: the delivery is given up and the channel gets closed. *)
 Definition C16_d10_sched : list label :=
   [OStartTrav; OGetNodes; TIssue 101%N; EConsumerStop; QReturn 0 (C16_rep 6%N (Some [x61])); EClose; TLoopExit; OStalled; OStopStep].
 
@@ -160,7 +165,7 @@ Theorem C16_close_refuted_nonreading :
   (l_peers_closed s', all_done s', l_abandoned s') = (true, true, [0]).
 Proof.
   cbv zeta. split; [|split; [vm_compute; reflexivity|split]].
-  - unfold blocked_state. vm_compute. repeat split.
+  - unfold blocked_state. vm_compute. repeat split; try (left; reflexivity).
     eexists. split; [left; reflexivity|reflexivity].
   - intros l Il. destruct l as [| | | | | |sent| | |a| | |q r|q|q|q| | | | ]; try discriminate Il; try (vm_compute; reflexivity).
     + destruct q as [|q]; vm_compute; reflexivity.
@@ -169,6 +174,26 @@ Proof.
     + destruct q as [|q]; vm_compute; reflexivity.
   - vm_compute. reflexivity.
 Qed.
+
+(* the repaired contract: StopTraversing with a consumer that stopped reading waits (no internal event is
+   enabled, the response is neither delivered nor dropped); reading again delivers it -- exactly once -- and
+   the announce finishes with the channel closed; Close() instead would have released it as well *)
+Example C16_stoptraversing_keeps_delivery :
+  let c := C16_cfg true None in
+  let wait := [OStartTrav; OGetNodes; TIssue 101%N; EConsumerStop; QReturn 0 (C16_rep 6%N (Some [x61])); EStopTrav;
+               TLoopExit; OStalled; OStopStep] in
+  let s := run C16_sha C16_ver C16_ok C16_push c wait in
+  forallb (fun l => negb (enabled c s l)) [QDeliver 0; QAbandon 0; QFinish 0; TStopWait; OStoppedStep; OCloseP] = true /\
+  (l_delivered s, l_abandoned s, l_peers_closed s) = ([], [], false) /\
+  (* the same schedule with a consumer that keeps reading *)
+  (let s1 := run C16_sha C16_ver C16_ok C16_push c
+               [OStartTrav; OGetNodes; TIssue 101%N; QReturn 0 (C16_rep 6%N (Some [x61])); EStopTrav; TLoopExit; OStalled; OStopStep;
+                QDeliver 0; QFinish 0; TStopWait; OStoppedStep; OCloseP] in
+   (length (l_delivered s1), l_abandoned s1, l_peers_closed s1, all_done s1) = (1, [], true, true)) /\
+  (* or Close() *)
+  (let s2 := exec C16_sha C16_ver C16_ok C16_push c s [EClose; QAbandon 0; QFinish 0; TStopWait; OStoppedStep; OCloseP] in
+   (l_delivered s2, l_abandoned s2, l_peers_closed s2, all_done s2) = ([], [0], true, true)).
+Proof. vm_compute. repeat split. Qed.
 
 (* ---- pins ---- *)
 Example C16_pin_traversal_defaults :
